@@ -56,7 +56,9 @@ type Pair[K comparable, V any] struct {
 }
 `
 
-const poolHeader = `package pool
+var poolHeader = strings.Replace(poolHeader0, "@GSIMPORTS@", gsPoolImports[1:], 1) + gsPoolDecls
+
+const poolHeader0 = `package pool
 
 import (
 	"unsafe"
@@ -66,7 +68,13 @@ import (
 	"example.com/c10/gen"
 	"example.com/c10/lib"
 	vlib "example.com/app/vendor/example.com/c10/lib"
-)
+	vsuf "example.com/app/vendor/mirror.org/example.com/c10/lib"
+	msuf "mirror.org/example.com/c10/lib"
+	vpre "example.com/app/vendor/example.com/c10/lib/v2"
+	xven "example.com/app/xvendor/example.com/c10/lib"
+	vnest "example.com/app/vendor/example.com/dep/vendor/example.com/c10/lib"
+	vtmpl "example.com/app/vendor/example.com/c10/a/tmpl"
+@GSIMPORTS@)
 
 var _ unsafe.Pointer
 var _ ta.Template
@@ -74,12 +82,19 @@ var _ tb.Template
 var _ gen.L[int]
 var _ lib.T
 var _ vlib.T
+var _ vsuf.T
+var _ msuf.T
+var _ vpre.T
+var _ xven.T
+var _ vnest.T
+var _ vtmpl.Template
 
 type A = int
 type AP = *int
 type AS = []string
 type AF = func(int) string
 type AM = map[string]int
+type AFi = func(int)
 type ATa = ta.Template
 type N int
 type Str struct {
@@ -104,6 +119,8 @@ type node struct {
 	subs []*node
 	n    int  // func: number of params
 	vari bool // func type: variadic
+	// leaf of a pattern whose qualified name was resolved by the caller: package path and type name
+	npath, nname string
 }
 
 type leafDef struct{ typ, pat, coq string }
@@ -138,15 +155,23 @@ var patLeaves = []leafDef{
 var typeOnlyLeaves = []string{
 	"A", "AP", "AS", "AF", "AM", "ATa", "vlib.T", "vlib.U", "gen.L[int]", "gen.L[string]", "gen.Pair[string, int]", "any",
 	"interface{ M() }", "interface{ M(); N() int }", "struct{}", "*A", "[]A", "map[A]A", "func(A) A", "[2]A",
+	"gen.Pair[string, bool]", "gen.Pair[int, int]", "gen.L[A]", "gen.L[gen.L[int]]", "gen.L[gen.L[string]]",
+	"vsuf.T", "msuf.T", "vpre.T", "xven.T", "vtmpl.Template", "vsuf.U",
 }
 
 // what a type-only leaf is confusable with, to produce patterns for them
 var confusable = map[string][]string{
 	"int": {"A", "N", "int32", "string"}, "A": {"int", "N"}, "string": {"int", "bool"}, "byte": {"uint8", "int"}, "uint8": {"byte", "int32"},
-	"rune": {"int32", "int"}, "int32": {"rune", "int"}, "ta.Template": {"tb.Template", "ATa", "ta.Other"}, "tb.Template": {"ta.Template", "ATa"},
-	"lib.T": {"vlib.T", "lib.U", "vlib.U"}, "lib.U": {"vlib.U", "lib.T"}, "N": {"int", "A"}, "interface{}": {"any", "I", "interface{ M() }", "error"},
+	"rune": {"int32", "int"}, "int32": {"rune", "int"}, "ta.Template": {"tb.Template", "ATa", "ta.Other", "vtmpl.Template"}, "tb.Template": {"ta.Template", "ATa", "vtmpl.Template"},
+	"lib.T": {"vlib.T", "lib.U", "vlib.U", "vsuf.T", "msuf.T", "vpre.T", "xven.T"}, "lib.U": {"vlib.U", "lib.T", "vsuf.U"}, "N": {"int", "A"}, "interface{}": {"any", "I", "interface{ M() }", "error"},
 	"error": {"interface{}", "I"}, "I": {"interface{ M() }", "interface{}"}, "Str": {"struct{}", "N"}, "bool": {"int"}, "float64": {"int"},
 	"unsafe.Pointer": {"AP", "int"}, "ta.Other": {"ta.Template", "int"},
+	// instantiations of one generic type (same TypeName object, different type arguments) and the near misses of a vendored copy
+	"gen.L[int]": {"gen.L[string]", "gen.L[A]", "gen.L[gen.L[int]]"}, "gen.L[string]": {"gen.L[int]", "gen.L[gen.L[string]]"},
+	"gen.Pair[string, int]": {"gen.Pair[string, bool]", "gen.Pair[int, int]"}, "gen.Pair[string, bool]": {"gen.Pair[string, int]"},
+	"gen.L[gen.L[int]]": {"gen.L[gen.L[string]]", "gen.L[int]"}, "gen.L[A]": {"gen.L[int]", "gen.L[string]"},
+	"vlib.T": {"lib.T", "vsuf.T", "msuf.T", "vpre.T", "xven.T"}, "vsuf.T": {"lib.T", "vlib.T"}, "msuf.T": {"lib.T", "vlib.T"},
+	"vpre.T": {"lib.T", "vlib.T"}, "xven.T": {"lib.T", "vlib.T"}, "vtmpl.Template": {"ta.Template", "tb.Template"},
 }
 
 // leaves used only by hand-written patterns: a generic type name and qualified alias names (recorded findings)
@@ -584,11 +609,33 @@ type oracle struct {
 	leafTy map[string]types.Type // pattern leaf text -> the type it spells
 }
 
+// stripVendor: the import path that a (possibly vendored) package directory stands for -- the text after the LAST
+// "/vendor/" element (vendor directories nest: a/vendor/b/vendor/c is a copy of c), as cmd/go and
+// golang.org/x/tools/imports.VendorlessPath define it.
 func stripVendor(p string) string {
-	if i := strings.Index(p, "/vendor/"); i >= 0 {
+	if i := strings.LastIndex(p, "/vendor/"); i >= 0 {
 		return p[i+len("/vendor/"):]
 	}
+	if strings.HasPrefix(p, "vendor/") {
+		return p[len("vendor/"):]
+	}
 	return p
+}
+
+// nestedVendor: the type mentions a named type of a package below more than one vendor directory (recorded finding:
+// typematch cuts the path after the first "/vendor/")
+func nestedVendor(t types.Type) bool {
+	var cands []types.Type
+	var lens []int64
+	subTypes(t, &cands, &lens, 0)
+	for _, c := range cands {
+		if nt, ok := types.Unalias(c).(*types.Named); ok && nt.Obj().Pkg() != nil {
+			if pp := nt.Obj().Pkg().Path(); strings.Count(pp, "/vendor/") > 1 || strings.HasPrefix(pp, "vendor/") {
+				return true
+			}
+		}
+	}
+	return false
 }
 
 // fits: with the assignment fixed, does the pattern instantiate to t for some split of its $*_ runs?
@@ -605,9 +652,21 @@ func (o *oracle) fits(p *px, t types.Type, tv map[string]types.Type, iv map[stri
 	case "leaf":
 		if strings.HasPrefix(p.coq, "PNamed") {
 			// a qualified name: the named type of that package (a vendored copy is the package itself)
-			want, isNamed := o.leafTy[p.pat].(*types.Named)
+			lt := o.leafTy[p.pat]
+			if p.npath != "" {
+				lt = nil
+				if pk := o.pkgs[p.npath]; pk != nil {
+					if tn, ok := pk.Scope().Lookup(p.nname).(*types.TypeName); ok {
+						lt = tn.Type()
+					}
+				}
+				if lt == nil {
+					return false // the package does not declare the name: the pattern denotes nothing
+				}
+			}
+			want, isNamed := lt.(*types.Named)
 			if !isNamed { // the qualified name is an alias: it spells the aliased type
-				return types.Identical(o.leafTy[p.pat], t)
+				return types.Identical(lt, t)
 			}
 			nt, ok := t.(*types.Named)
 			if !ok || nt.Obj().Pkg() == nil {
@@ -806,12 +865,14 @@ type out struct {
 	Oracle   []string `json:"oracle"`        // brute force
 	Closed   []string `json:"closed"`        // '0'/'1' types.Identical for closed patterns, '-' not applicable
 	Vendored []bool   `json:"vendored"`
+	NestedV  []bool   `json:"nested_vendor"`
 	Instd    []bool   `json:"instantiated"`
 	ParseErr []string `json:"parse_err"`
 	Panics   []string `json:"panics"`
 	Tried    int      `json:"assignments_tried"`
 	Unsup    string   `json:"unsupported"`
 	Engine   *engOut  `json:"engine,omitempty"`
+	Groups   *gsOut   `json:"groups,omitempty"`
 	Error    string   `json:"error,omitempty"`
 }
 
@@ -834,6 +895,65 @@ var fixedTypes = []string{
 	"chan int", "<-chan int", "chan<- int", "func(func(int, string), int, string)", "func([2]int, [3]string) [3]int", "func([2]int, [3]string) [2]int",
 	"func([2]int, [3]string) [3]string", "func([2]int, [3]string, [2]bool)", "func([2]int, [3]string, [8]bool)", "map[[2]int][2]string", "map[[2]int][3]string", "func(int, func(int) int) func(int) int",
 	"struct{ F0 func(int, string); F1 int; F2 string }", "func(int, *int, int) *int", "func(*int, int, int) int", "func(string, int, int, *int) (int, *int)",
+	// near misses of "a vendored copy is the package itself": the path after /vendor/ merely ends in / starts with the package path,
+	// the same suffix without a vendor directory, a directory whose name only contains "vendor", a vendored copy of another package
+	"vsuf.T", "msuf.T", "vpre.T", "xven.T", "*vsuf.T", "[]msuf.T", "func(vpre.T) xven.T", "vsuf.U", "vtmpl.Template", "*vtmpl.Template",
+	"map[string]vsuf.T", "func(lib.T, vsuf.T)", "vnest.T", "*vnest.T",
+}
+
+// Near-miss pairs for REPEATED variables: two types that a careless identity test confuses (instantiations of one generic
+// type, same-named types of two packages, a vendored copy and the package itself, arrays of different length, ...) and
+// pairs that ARE identical although they are spelled differently (alias and target, byte and uint8, any and interface{}).
+// Every pair is placed, in both orders, into the positions that the repeated-variable patterns of pairPats bind to one
+// variable; the oracle compares the two bindings with types.Identical.
+var pairCat = []struct {
+	x, y string
+	cmp  bool // both usable as a map key
+}{
+	{"gen.L[int]", "gen.L[string]", true}, {"gen.L[int]", "gen.L[A]", true}, {"gen.Pair[int, string]", "gen.Pair[int, bool]", true},
+	{"gen.Pair[int, string]", "gen.Pair[string, string]", true}, {"gen.L[gen.L[int]]", "gen.L[gen.L[string]]", true},
+	{"*gen.L[int]", "*gen.L[string]", true}, {"[]gen.L[int]", "[]gen.L[string]", false}, {"gen.L[int]", "gen.Pair[int, int]", true},
+	{"func(gen.L[int])", "func(gen.L[string])", false}, {"ta.Template", "tb.Template", true}, {"ta.Template", "vtmpl.Template", true},
+	{"ATa", "ta.Template", true}, {"ATa", "tb.Template", true}, {"lib.T", "vlib.T", true}, {"lib.T", "lib.U", true}, {"lib.T", "msuf.T", true},
+	{"vlib.T", "vsuf.T", true}, {"A", "int", true}, {"N", "int", true}, {"N", "A", true}, {"[2]int", "[3]int", true}, {"[2]A", "[2]int", true},
+	{"[2]int", "[]int", false}, {"chan int", "<-chan int", true}, {"chan int", "chan A", true}, {"func(int)", "func(int) int", false},
+	{"func(...int)", "func([]int)", false}, {"func(int)", "AFi", false}, {"I", "interface{ M() }", true}, {"any", "interface{}", true},
+	{"byte", "uint8", true}, {"rune", "int32", true}, {"rune", "int", true}, {"Str", "struct{ a int; B string }", true},
+	{"*int", "AP", true}, {"*int", "*N", true}, {"unsafe.Pointer", "uintptr", true}, {"struct{ F0 int }", "struct{ F0 int `k:\"v\"` }", true},
+	{"struct{ F0 int }", "struct{ F1 int }", true}, {"map[string]int", "AM", false}, {"map[string]int", "map[string]N", false},
+	{"error", "interface{ Error() string }", true}, {"int", "uint", true}, {"float64", "float32", true}, {"string", "[]byte", false},
+}
+
+// patterns that bind both members of a pair to one variable
+var pairPats = []string{
+	"func($t, $t)", "func($t) $t", "struct{$t; $t}", "map[$t]$t", "func([]$t) *$t", "func($*_, $t, $*_, $t, $*_)", "struct{$*_; $t; $*_; $t; $*_}",
+	"func($t, $_)", "map[$_]$t", "func($a, $b)", "func($t, $t) $t",
+}
+
+func pairTypes() []string {
+	var out []string
+	seen := map[string]bool{}
+	add := func(s string) {
+		if !seen[s] {
+			seen[s] = true
+			out = append(out, s)
+		}
+	}
+	for _, pc := range pairCat {
+		for _, o := range [][2]string{{pc.x, pc.y}, {pc.y, pc.x}} {
+			x, y := o[0], o[1]
+			add(fmt.Sprintf("func(%s, %s)", x, y))
+			add(fmt.Sprintf("struct{ F0 %s; F1 %s }", x, y))
+			if pc.cmp {
+				add(fmt.Sprintf("map[%s]%s", x, y))
+			}
+		}
+		add(fmt.Sprintf("func(%s) %s", pc.x, pc.y))
+		add(fmt.Sprintf("func([]%s) *%s", pc.y, pc.x))
+		add(fmt.Sprintf("func(%s, %s)", pc.x, pc.x))
+		add(fmt.Sprintf("func(int, %s, string, %s)", pc.x, pc.y))
+	}
+	return out
 }
 
 // hand-written patterns (string, expected term); "" expected = do not compare the tree
@@ -858,6 +978,7 @@ func main() {
 	depth := flag.Int("depth", 3, "max depth")
 	dump := flag.Bool("dumpsrc", false, "print generated source")
 	engN := flag.Int("engine", 40, "number of patterns for the engine-level section (0 = off)")
+	grpN := flag.Int("groups", 5, "number of random rules files of the group-sequence section (-1 = section off)")
 	flag.Parse()
 	o := out{Mode: os.Getenv("GODEBUG"), Seed: *seed}
 	enc := json.NewEncoder(os.Stdout)
@@ -870,9 +991,15 @@ func main() {
 
 	// ---- types and patterns
 	typeExprs := append([]string{}, fixedTypes...)
+	pairFrom := len(typeExprs)
+	typeExprs = append(typeExprs, pairTypes()...)
+	pairTo := len(typeExprs)
 	var pats []patCase
 	for _, s := range fixedPats {
 		pats = append(pats, patCase{str: s})
+	}
+	for _, s := range pairPats {
+		pats = append(pats, patCase{str: s, force: true})
 	}
 	for i := 0; i < *nrand; i++ {
 		t := genType(r, *depth)
@@ -895,18 +1022,30 @@ func main() {
 		fmt.Fprintf(&sb, "\tV%03d %s\n", i, e)
 	}
 	sb.WriteString(")\n")
-	// engine-level section: probe functions per selected pattern (Type.Is, Type.Underlying().Is, list capture)
+	// engine-level section: probe functions per selected pattern (Type.Is, Type.Underlying().Is, list capture) over the
+	// hand-written types and the near-miss pair types
 	engPats := selectEnginePats(pats0(pats), *engN)
-	engTypes := len(typeExprs)
-	if engTypes > 90 {
-		engTypes = 90
+	var engIdx []int
+	for j := range typeExprs {
+		if strings.Contains(typeExprs[j], "vnest.") {
+			continue // recorded finding (nested vendor directories): exercised by the direct section only
+		}
+		if j < 70 || (j >= pairFrom && j < pairTo) || (j >= len(fixedTypes)-14 && j < len(fixedTypes)) {
+			engIdx = append(engIdx, j)
+		}
 	}
 	for k := range engPats {
 		fmt.Fprintf(&sb, "\nfunc is%d(interface{})     {}\nfunc uis%d(interface{})    {}\nfunc ls%d(...interface{}) {}\nfunc use%d() {\n", k, k, k, k)
-		for j := 0; j < engTypes; j++ {
-			fmt.Fprintf(&sb, "\tis%d(V%03d)\n\tuis%d(V%03d)\n\tls%d(V%03d, V%03d)\n", k, j, k, j, k, j, (j+1)%engTypes)
+		for n, j := range engIdx {
+			fmt.Fprintf(&sb, "\tis%d(V%03d)\n\tuis%d(V%03d)\n\tls%d(V%03d, V%03d)\n", k, j, k, j, k, j, engIdx[(n+1)%len(engIdx)])
 		}
 		fmt.Fprintf(&sb, "\tls%d()\n}\n", k)
+	}
+	var groups *gsOut
+	if *grpN >= 0 {
+		var decl string
+		groups, decl = gsBuild(rand.New(rand.NewSource(*seed+7919)), *grpN)
+		sb.WriteString(decl)
 	}
 	if *dump {
 		fmt.Fprintln(os.Stderr, sb.String())
@@ -914,7 +1053,16 @@ func main() {
 	srcs := map[string]string{
 		"example.com/c10/a/tmpl": srcTmpl, "example.com/c10/b/tmpl": srcTmpl, "example.com/c10/gen": srcGen,
 		"example.com/c10/lib": srcLib, "example.com/app/vendor/example.com/c10/lib": srcLib,
+		"example.com/app/vendor/mirror.org/example.com/c10/lib":             srcLib,
+		"mirror.org/example.com/c10/lib":                                    srcLib,
+		"example.com/app/vendor/example.com/c10/lib/v2":                     srcLib,
+		"example.com/app/xvendor/example.com/c10/lib":                       srcLib,
+		"example.com/app/vendor/example.com/dep/vendor/example.com/c10/lib": srcLib,
+		"example.com/app/vendor/example.com/c10/a/tmpl":                     srcTmpl,
 		"example.com/c10/pool": sb.String(),
+	}
+	for p, src := range gsPkgs {
+		srcs[p] = src
 	}
 	u, err := gtypes.NewUniverse(1, srcs, nil)
 	if err != nil {
@@ -929,6 +1077,7 @@ func main() {
 		o.Types = append(o.Types, typeExprs[i])
 		o.Terms = append(o.Terms, ser.Term(t))
 		o.Vendored = append(o.Vendored, strings.Contains(t.String(), "/vendor/"))
+		o.NestedV = append(o.NestedV, nestedVendor(t))
 		o.Instd = append(o.Instd, strings.Contains(t.String(), "gen.L[") || strings.Contains(t.String(), "gen.Pair["))
 	}
 
@@ -1008,7 +1157,11 @@ func main() {
 	}
 	o.Unsup = ser.Unsupported
 	if len(engPats) > 0 {
-		o.Engine = engineSection(u, orc, engPats, tys[:engTypes], typeExprs[:engTypes])
+		o.Engine = engineSection(u, orc, engPats, tys, engIdx)
+	}
+	if groups != nil {
+		gsRun(groups, u, orc)
+		o.Groups = groups
 	}
 	enc.Encode(o)
 }
@@ -1024,20 +1177,22 @@ type engOut struct {
 }
 
 type engPat struct {
-	str string
-	px  *px
+	str   string
+	px    *px
+	force bool
 }
 
 type patCase struct {
-	str string
-	exp string
-	px  *px
+	str   string
+	exp   string
+	px    *px
+	force bool // always part of the engine-level section
 }
 
 func pats0(ps []patCase) []engPat {
 	var out []engPat
 	for _, p := range ps {
-		out = append(out, engPat{p.str, p.px})
+		out = append(out, engPat{p.str, p.px, p.force})
 	}
 	return out
 }
@@ -1046,8 +1201,11 @@ func pats0(ps []patCase) []engPat {
 func selectEnginePats(ps []engPat, n int) []engPat {
 	var out []engPat
 	for i, p := range ps {
-		if n <= 0 || len(out) >= n {
+		if n <= 0 {
 			break
+		}
+		if len(out) >= n && !p.force {
+			continue
 		}
 		if strings.Contains(p.str, "ta.") || strings.Contains(p.str, "tb.") || strings.Contains(p.str, "gen.") || strings.Contains(p.str, "pool.A") {
 			continue
@@ -1060,14 +1218,18 @@ func selectEnginePats(ps []engPat, n int) []engPat {
 			continue
 		}
 		// spread over the catalogue and the random patterns
-		if i%3 == 0 || strings.Contains(p.str, "$*_") && i%2 == 0 {
-			out = append(out, engPat{p.str, px})
+		if p.force || i%3 == 0 || strings.Contains(p.str, "$*_") && i%2 == 0 {
+			out = append(out, engPat{p.str, px, p.force})
 		}
 	}
 	return out
 }
 
-func engineSection(u *gtypes.Universe, orc *oracle, ps []engPat, tys []types.Type, names []string) *engOut {
+func engineSection(u *gtypes.Universe, orc *oracle, ps []engPat, allTys []types.Type, idx []int) *engOut {
+	tys := make([]types.Type, len(idx))
+	for n, j := range idx {
+		tys[n] = allTys[j]
+	}
 	eo := &engOut{Obs: map[string][]string{}, Oracle: map[string][]string{}}
 	var b strings.Builder
 	b.WriteString("package gorules\n\nimport \"github.com/quasilyte/go-ruleguard/dsl\"\n\nfunc c10engine(m dsl.Matcher) {\n")
@@ -1114,15 +1276,15 @@ func engineSection(u *gtypes.Universe, orc *oracle, ps []engPat, tys []types.Typ
 		for j, t := range tys {
 			okT[j], _ = orc.denotes(p.px, t)
 			if okT[j] {
-				is = append(is, fmt.Sprintf("V%03d", j))
+				is = append(is, fmt.Sprintf("V%03d", idx[j]))
 			}
 			if r, _ := orc.denotes(p.px, t.Underlying()); r {
-				uis = append(uis, fmt.Sprintf("V%03d", j))
+				uis = append(uis, fmt.Sprintf("V%03d", idx[j]))
 			}
 		}
 		for j := range tys {
 			if okT[j] && okT[(j+1)%len(tys)] {
-				ls = append(ls, fmt.Sprintf("V%03d, V%03d", j, (j+1)%len(tys)))
+				ls = append(ls, fmt.Sprintf("V%03d, V%03d", idx[j], idx[(j+1)%len(tys)]))
 			}
 		}
 		ls = append(ls, "") // the empty argument list satisfies the filter vacuously
@@ -1140,6 +1302,5 @@ func engineSection(u *gtypes.Universe, orc *oracle, ps []engPat, tys []types.Typ
 			eo.Obs[key] = got
 		}
 	}
-	_ = names
 	return eo
 }
